@@ -17,52 +17,52 @@ CHECKS = {
         "case = one adversarial-asynchronous world (N, faulty identities <=F, anti-MEV mode, scheduler profile, action sequence) drawn by rapid; "
         "non-trivial = at least two honest nodes accepted a block at the same height AND the run contained a view change, Byzantine traffic, a restart or an early (cached) delivery; "
         "distinct = 64-bit hash of the full choice stream",
-        1500, 40000),
+        10000, 150000),
     "C02": rapid("TestC02",
         "case = one adversarial-asynchronous world with mis-timed valid/invalid (pre)commits; non-trivial = a block or pre-block was accepted in a run where a (pre)commit arrived early or an invalid (pre)commit was held at acceptance; distinct = hash of the choice stream",
-        1500, 40000),
+        10000, 150000),
     "C03": rapid("TestC03",
         "case = one adversarial-asynchronous world; non-trivial = some honest node broadcast a commit/pre-commit and afterwards received a timeout or a ChangeView of its height; distinct = hash of the choice stream",
-        1500, 40000),
+        10000, 150000),
     "C04": rapid("TestC04",
         "case = one adversarial-asynchronous world (N up to 10); non-trivial = a commit/pre-commit or a view change was checked in a run with early deliveries or with a non-matching preparation present; distinct = hash of the choice stream",
-        1500, 40000),
+        8000, 120000),
     "C10": rapid("TestC10",
         "case = one adversarial-asynchronous world; non-trivial = a timeout of the current epoch was consumed or a view changed; distinct = hash of the choice stream",
-        1500, 40000),
+        10000, 150000),
     "C05": rapid("TestC05",
         "case = one multi-height adversarial-asynchronous world (up to 5 heights, delayed Reset, ledger sync skipping heights, 40% with validator lists changing size/membership/own index, leftover and early cross-height traffic); "
         "non-trivial = a re-initialisation was checked in a run with skipped heights, a changing validator set, early traffic for the new height or calls arriving after the decision; distinct = hash of the choice stream",
-        600, 15000),
+        3500, 50000),
     "C07": rapid("TestC07",
         "case = one adversarial-asynchronous world with anti-MEV off / on from genesis / switching on at the 2nd height, scripted ProcessPreBlock/ProcessBlock failures, early pre-commits; "
         "non-trivial = (an anti-MEV commit was checked in a run with early deliveries or a failing pre-block callback) or a pre-commit was delivered while anti-MEV was off; distinct = hash of the choice stream",
-        1500, 40000),
+        10000, 150000),
     "C11": rapid("TestC11",
         "case = one adversarial-asynchronous world used as a random prefix, with probe actions: one inadmissible input of each listed class or the re-delivery of a stored payload, whole-state fingerprint compared before/after; every API call runs under panic capture; "
         "non-trivial = a probe hit a node with >=2 non-empty tables; distinct = hash of the choice stream",
-        600, 15000),
+        4000, 60000),
     "C12": rapid("TestC12",
         "case = one adversarial-asynchronous world with many transactions unknown to some nodes, supplied in drawn order interleaved with everything else; "
         "non-trivial = an obligation with >=2 requested transactions and >=1 other event between the supplies was checked; distinct = hash of the choice stream",
-        1500, 40000),
+        10000, 150000),
     "C13": rapid("TestC13",
         "case = one adversarial-asynchronous world with a non-validator observer and (1/3) a validator carrying the watch-only flag; "
         "non-trivial = the watch-only index was primary of some (height, view) the node entered; distinct = hash of the choice stream",
-        1500, 40000),
+        6000, 90000),
     "C08": rapid("TestC08",
         "case = one fault-free timed world (N 1..7, 3-6 heights, start at genesis in 1/4 of the runs, anti-MEV off/on/switching, latency <= TimePerBlock/20 drawn per message, drawn order inside an instant, 0/10/40% duplicates, Reset lagging by up to two latencies); "
         "non-trivial = the run completed and contained at least one early (cached) delivery and one duplicate; distinct = hash of the choice stream",
-        400, 10000, assumptions=ASYNC_ASSUME + ["synchrony: latency and Reset lag are far below TimePerBlock; timers fire exactly at their deadline"]),
+        8000, 120000, assumptions=ASYNC_ASSUME + ["synchrony: latency and Reset lag are far below TimePerBlock; timers fire exactly at their deadline"]),
     "C09": rapid("TestC09",
         "case = one timed world (N 4..7) of a drawn fault family: (i) <=F validators silent from the start, preferably the primaries of the first views; (ii) a drawn subset cut off at a drawn instant for up to 30 block times, then healed; (iii) crash + amnesia restart of one validator (preferably the current primary); "
         "after the last fault latency <= TimePerBlock/20 and every node runs ledger block-sync with a drawn period; horizon = last fault + heights*TimePerBlock*2^(highest view then + F + 4); hitting the event budget is inconclusive, never a violation; "
         "non-trivial = the run completed and had a decision in view>0, a ledger sync or a restart; distinct = hash of the choice stream",
-        300, 8000, assumptions=ASYNC_ASSUME + ["'eventually' is replaced by the stated virtual-time horizon", "applications fetch missing blocks from reachable peers (the contract's 'received by other means')"]),
+        8000, 120000, assumptions=ASYNC_ASSUME + ["'eventually' is replaced by the stated virtual-time horizon", "applications fetch missing blocks from reachable peers (the contract's 'received by other means')"]),
     "C16": rapid("TestC16",
         "case = one fault-free timed world with MaxTimePerBlock/TimePerBlock in {1,1.5,2,3,8} (or off), identical pools, per height a transaction arriving never / before the minimum / during the extended wait (kept 4 latencies away from the 2*TimePerBlock race); "
         "non-trivial = some round entered the extended wait; distinct = hash of the choice stream",
-        400, 10000, assumptions=ASYNC_ASSUME + ["latency = TimePerBlock/50; gaps are judged with a tolerance of two latencies"]),
+        8000, 120000, assumptions=ASYNC_ASSUME + ["latency = TimePerBlock/50; gaps are judged with a tolerance of two latencies"]),
     "C06": rapid("TestC06",
         "enumeration: every validator count N=1..65535 (context initialised through Start/Reset) x every view 0..255 x boundary ledger heights {N-1, 2^31-1, 2^32-1} (all of {0,1,2,N-1,N,N+1,2^31-1,2^31,2^32-2,2^32-1} for N<=4096; for every N in the thorough tier); "
         "rotation over N consecutive views for N<=256 and over N consecutive heights for N<=512; plus rapid-drawn (N, height, view) triples checked against a big-integer reference; "
@@ -72,15 +72,35 @@ CHECKS = {
         "case = one single-node script (driver B: N 1..7, primary and backup roles, responses after drawn delays, change views, recovery requests, transactions, 1-3+ heights, dynamic block time 1/4) executed three times: at epoch E, at E+delta (delta = k*7*999983 s, a multiple of every increment in use, |k| up to 300, past and future) and again at E after the wall clock moved; "
         "oracle: identical sequences of payload summaries (hashes up to renaming), Timer.Reset/Extend arguments and accepted blocks, absolute timestamps shifted by exactly delta; "
         "non-trivial = the script had a primary round with a response after a non-zero delay followed by a Reset (the RTT estimate feeds a timer); distinct = hash of the choice stream",
-        600, 15000, assumptions=["the harness value types and callbacks are themselves clock-free; crypto/rand.Reader is replaced by a deterministic reader"]),
+        5000, 75000, assumptions=["the harness value types and callbacks are themselves clock-free; crypto/rand.Reader is replaced by a deterministic reader"]),
     "C15": rapid("TestC15",
         "case = one single-node script in which the node proposes as primary (at Start, after Reset at the timer, in views >0), with previous-block timestamps before/around/after the clock, increments {1,7,999983,1e6,1e9} ns, pools of 0..20 transactions with a drawn per-block limit, clock stepping backwards; "
         "non-trivial = a proposal was made with an unaligned clock and a non-empty pool, or with the clock at or behind the previous block's timestamp; distinct = hash of the choice stream",
-        1500, 40000, assumptions=["the zone prev < trunc(clock) < prev+inc is only bounded (two readings of the statement)"]),
+        20000, 300000, assumptions=["the zone prev < trunc(clock) < prev+inc is only bounded (two readings of the statement)"]),
     "C19": rapid("TestC19",
         "five generated families over the reference implementations: (1) payloads of every kind built through the exported constructors (recovery messages filled through AddPayload): equal fields => equal hash, one mutated field => different hash, decode(encode(p)) observationally equal incl. rebuilt proposal/responses/change views/(pre)commits; (2) blocks / anti-MEV blocks: hash vs content, signature does not change the hash and verifies only for that key and content; (3) ECDSA sign/verify incl. altered data/signature/other key; (4) Merkle root vs leaf/order/add/remove changes; (5) decoder fed random bytes and corrupted/truncated valid encodings: error or value, never panic, accepted values survive their own round trip; thorough adds native fuzzing of (5); "
         "non-trivial = recovery message with >=2 embedded payloads, proposal/block with >=2 transactions, >=3 Merkle leaves, non-empty signed data, or a corrupted valid encoding; distinct = hash of the generated value",
-        1500, 30000, assumptions=["sound domain: ChangeView bodies with newView = view+1, 64-byte signatures, 4-byte pre-commit data, duplicate-free hash lists, blocks whose transactions were set", "pre-commit and anti-MEV commit payloads are rejected by the reference decoder (allowed)"]),
+        10000, 150000, assumptions=["sound domain: ChangeView bodies with newView = view+1, 64-byte signatures, 4-byte pre-commit data, duplicate-free hash lists, blocks whose transactions were set", "pre-commit and anti-MEV commit payloads are rejected by the reference decoder (allowed)"]),
 }
 CHECKS["C19"]["fuzz"] = [("FuzzC19Decode", 150)]
 CHECKS["C11"]["fuzz"] = [("FuzzC11", 240)]
+CHECKS["C17"] = {
+    "custom": "c17",
+    "rule": "case = one configuration of the real simulation binary built from the working tree (-count 1..7, -watchers 0..3, -txblock 0..3, GOMAXPROCS in {1,2,4,16}, 17-31 s of wall time; block interval is hard-coded to 5 s); the documented shape (4 validators + 1 watcher) is always included; "
+            "oracle on its log: every validator and watcher approves consecutive heights 1..k with floor(D/5)-1 <= k <= floor(D/5)+2, one hash per height across nodes, no panic; non-trivial = count >= 2; distinct = distinct configurations",
+    "quick": {"runs": 3, "parallel": 3},
+    "thorough": {"runs": 16, "parallel": 4},
+    "assumptions": ["goroutine schedules of the real program are sampled, not owned", "wall-clock based: bounds are one block of slack below and two above", "runs are isolated in network namespaces (the program binds localhost:6060) or serialised with a lock"],
+}
+CHECKS["C18"] = rapid("TestC18",
+    "case = one sequence of 3-14 operations on the real timer: Reset(h,v,d) with d in {0, 1-30 ms, 40-120 ms}, Extend(0-40 ms), Sleep(0-45 ms), non-blocking read, blocking read; model with interval bounds (never early w.r.t. latest reset + duration + extensions; expiry within 2 s after the deadline; zero duration fires at once; Height/View of the latest reset; no second expiry for one arming unless an Extend moved the deadline beyond the read); "
+    "non-trivial = the sequence contains a reset after an unread expiry, an extend after a zero-duration reset or an extend that re-arms a consumed timer; distinct = the rendered sequence",
+    150, 1500, assumptions=["real time: only the 'never early' direction is strict; lateness tolerance 2 s; an Extend racing the deadline within the s0..s1 microseconds is not judged"])
+CHECKS["C20"] = {
+    "custom": "c20",
+    "rule": "case = one random behaviour generated by TLC's simulation mode from one of the five shipped .tla files as they are in the working tree, for RM={0,1,2,3}, MaxView in {1,2} (MaxUndeliveredMessages=6 for the multipool model) and every fault assignment the ASSUME clauses allow (none / one faulty / one dead / one faulty-and-dead, node drawn from VERIF_SEED); the spec's own TypeOK, InvTwoBlocksAccepted (InvTwoBlocksAcceptedAdvanced for centralizedCV) and InvFaultNodesCount are evaluated on every generated state under the shipped state constraint; "
+            "non-trivial (measured on separately dumped behaviours only) = a behaviour in which a block is accepted and that contains a view > 0 or a bad/dead node; distinct = hash of the action-name sequence",
+    "quick": {"num": 1500, "dumpnum": 60, "depth": 80, "workers": 2, "parallel": 8, "timeout": 600},
+    "thorough": {"num": 30000, "dumpnum": 400, "depth": 100, "workers": 2, "parallel": 8, "timeout": 3000},
+    "assumptions": ["TLC (tla2tools 1.8.0) evaluates the specs faithfully", "random simulation, not exhaustive model checking: behaviours are sampled up to the stated depth", "liveness/temporal properties of the specs are not checked"],
+}
